@@ -66,6 +66,8 @@ package tbs
 // every finding names the file of the class it was found in
 //@ spec rec InFiles(ds []core_domain.CodeDataStruct, n int, f string) bool := n <= 0 ? false : (InFiles(ds, n - 1, f) || ds[n - 1].FilePath == f)
 
+//@ spec rec FullSites(cs []core_domain.CodeCall, n int, s string) int := n <= 0 ? 0 : FullSites(cs, n - 1, s) + ((cs[n - 1].FunctionName != "" && CallFull(cs[n - 1]) == s) ? 1 : 0)
+
 //@ func TbsApp.AnalysisPath
 //@ ensures forall k int :: {result[k]} 0 <= k && k < len(result) ==> InFiles(deps, len(deps), result[k].FileName)
 //@ loop 1 invariant forall k int :: {results[k]} 0 <= k && k < len(results) ==> InFiles(deps, #i, results[k].FileName)
@@ -73,3 +75,5 @@ package tbs
 //@ loop 3 invariant forall k int :: {results[k]} 0 <= k && k < len(results) ==> (InFiles(deps, #i1, results[k].FileName) || results[k].FileName == clz.FilePath)
 //@ loop 4 invariant forall k int :: {results[k]} 0 <= k && k < len(results) ==> (InFiles(deps, #i1, results[k].FileName) || results[k].FileName == clz.FilePath)
 //@ loop 4 invariant methodCallMap != nil
+// the per-method call map used for DuplicateAssertTest is keyed by the callee's full method name: one entry per call
+//@ loop 4 invariant forall s string :: {methodCallMap[s]} {FullSites(currentMethodCalls, #i, s)} len(methodCallMap[s]) == FullSites(currentMethodCalls, #i, s)
